@@ -678,7 +678,7 @@ class C05(Check):
         return {"sources": sources, "ops": ops, "scripts": scripts}
 
     def generate(self, rng, tier):
-        n = 800 if tier == "quick" else 10000
+        n = 2500 if tier == "quick" else 25000
         for _ in range(n):
             yield self.rand_case(rng, rng.choice([3, 5, 8, 12, 20, 40, 80]))
         if tier == "thorough":
